@@ -5,7 +5,7 @@ cd /verif
 mkdir -p bin evidence replays .overlay
 cp -f /repo/go.sum /verif/go.sum
 rc=0
-for d in checks/*/; do
+for d in checks/c[0-9][0-9]/; do
   id=$(basename "$d")
   ovflag=""
   if [ -x "checks/$id/overlay.sh" ]; then
